@@ -8,15 +8,17 @@ From BiomV Require Import Base.Tree Base.ListUtil Base.Matrix Model.Table Model.
 Import ListNotations.
 
 (* ================================================================== the reference: read-all-then-filter *)
-(* `filter_ids` keeps the ids of the requested set in their ORIGINAL order, with the matching
-   rows / columns and metadata entries; the other axis, its metadata and the type are untouched.
-   `drop_empty_other a` then removes, on the axis that was not subset, the vectors holding no
-   non-zero value (Model/Subset.v: sel with nonzero_mask). *)
+(* `filter_ids` (= Table.filter(ids, axis)) keeps the ids of the requested set in their ORIGINAL
+   order, with the matching rows / columns and metadata entries; the other axis and the type are
+   untouched; metadata none of whose entries holds anything becomes None (`cast_md`, what
+   Table._cast_metadata does at the end of every filter and in the constructor).
+   `drop_empty_other a` then removes, in the same way, on the axis that was not subset, the
+   vectors holding no non-zero value (Model/Subset.v: flt with nonzero_mask). *)
 Theorem filter_ids_spec : forall ids_ a t,
   ids a (filter_ids ids_ a t) = filter (fun i => zmem i ids_) (ids a t) /\
   ids (other a) (filter_ids ids_ a t) = ids (other a) t /\
-  mds (other a) (filter_ids ids_ a t) = mds (other a) t /\
-  mds a (filter_ids ids_ a t) = option_map (select (id_mask ids_ (ids a t))) (mds a t) /\
+  mds (other a) (filter_ids ids_ a t) = cast_md (mds (other a) t) /\
+  mds a (filter_ids ids_ a t) = cast_md (option_map (select (id_mask ids_ (ids a t))) (mds a t)) /\
   ttype (filter_ids ids_ a t) = ttype t /\
   mat (filter_ids ids_ a t) = match a with Obs => sel_rows (id_mask ids_ (oids t)) (mat t)
                                           | Samp => sel_cols (id_mask ids_ (sids t)) (mat t) end.
